@@ -38,7 +38,6 @@ GcHi == 7000                    \* params.GC_MAX_FRACTION
 Insert == 250                   \* params.INSERT_SIZE
 EdgeSizeMax == 16000            \* cross-products num * t stay below 2^31 (|num| <= 2 * Insert^2)
 
-Force(s) == s \o <<>>           \* materialise a lazily evaluated function-as-sequence once
 
 KeyOf(x) == <<x[1], x[2], x[3]>>
 KeyLt(a, b) == \/ a[1] < b[1]
